@@ -182,6 +182,13 @@ def check_hand(res, rng, carry):
     hand_id = rng.randint(10 ** 6, 10 ** 9)
     sc = cfg['scale']
     r = sites.hand_record(s, names, seats, hand_id, sc)
+    if n >= 3 and rng.random() < 0.15:
+        # seat lines listed in join order rather than by seat number
+        # (PartyPoker exports, iPoker's attribute-keyed player elements)
+        perm = list(range(n))
+        rng.shuffle(perm)
+        r['seat_line_order'] = perm
+        res.counters['hands_with_permuted_seat_lines'] += 1
     exp = norm_actions(expected_actions(s), sc)
     nraise = sum(1 for a in exp if a[0] == 'cbr')
     showdown = any(a[0] == 'sm' for a in exp)
